@@ -116,7 +116,7 @@ func (e *Engine) pos(i ssa.Instruction) string {
 }
 
 func trimRepo(f string) string {
-	return strings.TrimPrefix(f, "/repo/")
+	return strings.TrimPrefix(f, repoDir+"/")
 }
 
 // ---------------------------------------------------------------------------
